@@ -1,0 +1,59 @@
+//go:build verif
+
+package canary
+
+import (
+	"io"
+
+	"k8s.io/cli-runtime/pkg/genericclioptions"
+	"sigs.k8s.io/controller-runtime/pkg/client"
+)
+
+// Verification hooks (build tag verif): run the unexported command bodies of
+// `kubectl-eds canary ...` against an injected client. Nothing else is changed.
+
+func verifStreams(out io.Writer) genericclioptions.IOStreams {
+	return genericclioptions.IOStreams{Out: out, ErrOut: out}
+}
+
+// VerifRunPause runs the body of `canary pause` (pause=true) or `canary unpause`.
+func VerifRunPause(c client.Client, ns, name string, pause bool, out io.Writer) error {
+	o := newPauseOptions(verifStreams(out), pause)
+	o.client = c
+	o.args = []string{name}
+	o.userNamespace = ns
+	o.userExtendedDaemonSetName = name
+	if err := o.validate(); err != nil {
+		return err
+	}
+
+	return o.run()
+}
+
+// VerifRunValidate runs the body of `canary validate`.
+func VerifRunValidate(c client.Client, ns, name string, out io.Writer) error {
+	o := newValidateOptions(verifStreams(out))
+	o.client = c
+	o.args = []string{name}
+	o.userNamespace = ns
+	o.userExtendedDaemonSetName = name
+	if err := o.validate(); err != nil {
+		return err
+	}
+
+	return o.run()
+}
+
+// VerifRunFail runs the body of `canary fail`.
+func VerifRunFail(c client.Client, ns, name string, out io.Writer) error {
+	o := newfailOptions(verifStreams(out), cmdFail)
+	o.client = c
+	o.args = []string{name}
+	o.userNamespace = ns
+	o.userExtendedDaemonSetName = name
+	if err := o.validate(); err != nil {
+		return err
+	}
+
+	return o.run()
+}
